@@ -258,13 +258,14 @@ def rand_cfg(rng, mods, timeout=None):
             if rng.random() < 0.6:
                 kv.append(("class", rng.choice(["cls-" + n, "x" * 70, "users"])))
             if rng.random() < 0.4:
-                kv.append(("account", rng.choice(["*", "acct", "ac*", "?cct", "nomatch"])))
+                # near-misses of the accounts the services vouch: prefixes, extensions, case variants
+                kv.append(("account", rng.choice(["*", "acct", "acc", "acctx", "ac*", "?cct", "ACCT", "nomatch", "acct:123", "a\\cct"])))
             if rng.random() < 0.3:
                 kv.append(("address", rng.choice(["1.2.3.4/32", "1.2.0.0/16", "10.*", "2001:db8::/32", "*", "9.9.9.9", "::/0", "bogus/99"])))
             if rng.random() < 0.3:
-                kv.append(("username", rng.choice(["*", "ident", "~*", "id*"])))
+                kv.append(("username", rng.choice(["*", "ident", "iden", "identx", "~*", "id*", "IDENT", "?dent"])))
             if rng.random() < 0.3:
-                kv.append(("hostname", rng.choice(["*", "*.example", "host.example", "nomatch"])))
+                kv.append(("hostname", rng.choice(["*", "*.example", "host.example", "host.exampl", "host.example.", "HOST.EXAMPLE", "nomatch"])))
             if rng.random() < 0.3 and services:
                 kv.append(("xreply_ok", rng.choice([s[0] for s in services] + ["Login.Srv", "nosuch"])))
             if rng.random() < 0.3:
@@ -277,7 +278,7 @@ def rand_cfg(rng, mods, timeout=None):
 
 PASSWORDS = ["+x acct pass", "+! acct pass", "+x! acct pass", "-! acct pass", "-x+! acct pass", "+x", "+x acct",
              "acct pass", "+xzz!  acct  pass word", "+ a b", "-!", "+!x acct pass", "x acct pass", "+x-x acct p"]
-REPLIES = ["OK", "OK acct", "OK acct:123:4", "OK ", "OK  two", "NO go away", "NO ", "NO", "AGAIN try later", "AGAIN",
+REPLIES = ["OK", "OK acct", "OK acct:123:4", "OK acctx:9", "OK acc", "OK acc:7", "OK ", "OK  two", "NO go away", "NO ", "NO", "AGAIN try later", "AGAIN",
            "MORE challenge text", "MORE", "OKAY", "ok", "BOGUS text", "OK " + "a" * 70, "NO " + "r" * 1100]
 
 
@@ -387,12 +388,24 @@ def scenario(rng, name, mods=None, nclients=None, cfg=None):
     ids = rng.sample([1, 2, 5, 7, 300, 65535, 0, -2, 2147483647], nclients)
     scripts = {cid: client_script(rng, cid, cfg, mods) for cid in ids}
     ops = header(mods, cfg) + render_schedule(rng, scripts)
+    if cfg.timeout and rng.random() < 0.5:
+        # real time passes: every armed timer fires
+        ops.insert(rng.randint(header_len_ops(ops), len(ops)), "elapse")
+        if rng.random() < 0.5:
+            ops.append("elapse")
     if rng.random() < 0.5:
         ops.append(inl("-1 ? :stats"))
     if rng.random() < 0.2:
         ops.append(inl("-1 ? :config"))
     ops.append("eof")
     return Case(name, ops, tags={"mods": mods})
+
+
+def header_len_ops(ops):
+    for i, l in enumerate(ops):
+        if l == "start":
+            return i + 1
+    return len(ops)
 
 
 MALFORMED = [b"", b" ", b"5", b"5 ", b"  5  ", b"-1", b"5 N", b"5 P", b"5 n", b"5 u", b"5 U", b"5 U x", b"5 C", b"5 C 1.2.3.4",
@@ -419,6 +432,58 @@ def malformed_case(rng, name):
     ops.append(inl("5 H"))
     ops.append("eof")
     return Case(name, ops, tags={"mods": mods, "malformed": True})
+
+
+def search_cases(prop, finding, seed):
+    """model and code diverged without a property failure on those inputs: look for a failing
+    input near the (shrunk) diverging history and in a larger fresh batch"""
+    rng = core.rng_for(seed, "proto-search-" + prop)
+    body = finding.case.body()
+    hl = header_len(finding.case) - 1
+    head, tail = body[:hl], [l for l in body[hl:] if l != "eof"]
+    ids = set()
+    for l in tail:
+        f = l.split(" ")
+        if f[0] == "in":
+            t = unhx(f[1]).split()
+            if len(t) >= 2 and t[1][:1] == b"C":
+                try:
+                    ids.add(int(t[0]))
+                except ValueError:
+                    pass
+    cfgop = [l for l in head if l.startswith("conf ")]
+    cfg = _cfg_from_fields(cfgop[0]) if cfgop else Cfg()
+    timeout_cfg = any(" t=0" not in l for l in cfgop)
+    out = []
+    k = 0
+    serials = _track_serials(tail)
+
+    def add(lines):
+        nonlocal k
+        out.append(Case("search/%d" % k, head + lines + ["eof"], tags=dict(finding.case.tags)))
+        k += 1
+
+    # the history itself, completed: hurry-ups, every reply kind from every service, timeouts at every point
+    for cid in sorted(ids):
+        add(tail + [inl("%d H" % cid)])
+        for pos in range(len(tail) + 1):
+            add(tail[:pos] + ["timeout %d" % cid] + tail[pos:])
+            add(tail[:pos] + ["timeout %d" % cid] + tail[pos:] + [inl("%d H" % cid)])
+        cur = serials[-1][0].get(cid)
+        if cur:
+            for svc, _t in cfg.services:
+                for rep in ("OK", "OK acct", "NO x", "AGAIN x", "MORE x"):
+                    line = inl("-1 X %s %x_%x :%s" % (svc, cid & 0xffffffff, cur, rep))
+                    add(tail + [line])
+                    add(tail + [line, inl("%d H" % cid)])
+                    for pos in range(len(tail) + 1):
+                        add(tail[:pos] + ["timeout %d" % cid] + tail[pos:] + [line])
+    out = out[:4000]
+    # a fresh batch, ten times the quick size, with configured timeouts favoured
+    for i in range(6000):
+        c = scenario(rng, "search/rnd%d" % i)
+        out.append(c)
+    return out
 
 
 def _track_serials(ops):
@@ -480,6 +545,91 @@ def stray_replies(rng, ops, p, cfg):
 
 JUNK = [b"", b"99 N host", b"99 P :+x a b", b"99 D", b"99 H", b"-1 ? bogus", b"-1 ?", b"99 X a b :c", b"-1 X a", b"-1 x a b",
         b"5 Z", b"5 %", b"-1 E a b", b"-1 M srv 5", b"98 C 1.2.3.4", b"98 C", b"  ", b"4294967395 D", b"99999999999999999999 H"]
+
+
+ACCOUNTS = ["acct", "acct:123:4", "acctx:9", "acc", "acc:7", "ACCT", "a", "acct2:1"]
+ACCOUNT_PATS = ["*", "acct", "acc", "acctx", "ac*", "?cct", "ACCT", "nomatch", "acct:123", "a\\cct", "acct*", "*t", "a"]
+HOSTS = ["host.example", "host.exampl", "Host.Example", "a.b.example", "example"]
+HOST_PATS = ["*", "*.example", "host.example", "host.exampl", "host.example.", "HOST.EXAMPLE", "nomatch", "host.*", "?ost.example"]
+IDENTS = ["ident", "iden", "identx", "~ident", "IDENT"]
+IDENT_PATS = ["*", "ident", "iden", "identx", "~*", "id*", "IDENT", "?dent"]
+CADDRS = ["1.2.3.4", "1.2.3.5", "1.2.255.255", "1.3.0.0", "10.0.0.1", "0::102:304", "0::ffff:1.2.3.4", "2001:db8::1", "2001:db9::1", "0::1"]
+ADDR_PATS = ["1.2.3.4/32", "1.2.3.4", "1.2.0.0/16", "1.2.3.0/24", "1.2.3.4/31", "1.*", "1.2.*", "10.*", "2001:db8::/32", "2001:db8::/31",
+             "2001:db8:*", "*", "0::/0", "9.9.9.9", "bogus/99", "0::ffff:1.2.3.4/128", "0::102:304"]
+
+
+def class_scenario(rng, name):
+    """C11: rule tables against clients whose attributes are near-misses of the criteria"""
+    services = [("login.srv", "login")]
+    if rng.random() < 0.4:
+        services.append(("drone.srv", "dronecheck"))
+    rules = []
+    for n in rng.sample(["a", "B", "c", "Dd", "e", "F0"], rng.choice([1, 2, 2, 3])):
+        kv = []
+        if rng.random() < 0.7:
+            kv.append(("class", rng.choice(["cls-" + n, "x" * 70, "users"])))
+        for crit, pool in rng.sample([("account", ACCOUNT_PATS), ("hostname", HOST_PATS), ("username", IDENT_PATS),
+                                      ("address", ADDR_PATS), ("xreply_ok", ["login.srv", "drone.srv", "Login.Srv", "nosuch"])],
+                                     rng.choice([0, 1, 1, 1, 2])):
+            kv.append((crit, rng.choice(pool)))
+        if rng.random() < 0.25:
+            kv.append(("trust_username", rng.choice(["yes", "no", "1"])))
+        rules.append((n, kv))
+    cfg = Cfg(timeout=0, services=services, rules=rules)
+    scripts = {}
+    for cid in rng.sample([1, 2, 5, 7], rng.choice([1, 2])):
+        ev = [("C", rng.choice(CADDRS), "1234"), ("line", "N " + rng.choice(HOSTS)), ("line", "u " + rng.choice(IDENTS)),
+              ("line", "n nick"), ("line", "U user :real name")]
+        if rng.random() < 0.85:
+            ev.insert(rng.randint(1, len(ev)), ("line", "P :+x acct pass"))
+            ev.append(("reply", "X", "login.srv", "OK " + rng.choice(ACCOUNTS) if rng.random() < 0.9 else "OK", "cur"))
+        if len(services) > 1:
+            ev.append(("reply", "X", "drone.srv", rng.choice(["OK", "OK", "AGAIN x"]), "cur"))
+        ev.append(("line", "H"))
+        scripts[cid] = ev
+    ops = header("class", cfg) + render_schedule(rng, scripts) + [inl("-1 ? :stats"), "eof"]
+    return Case(name, ops, tags={"mods": "class"})
+
+
+def challenge_scenario(rng, name):
+    """login flows with challenges: password early, MORE / AGAIN, challenge responses, data
+    completing before or after the final answer, timeouts in between"""
+    mods = rng.choice(["xquery", "class"])
+    services = [("login.srv", rng.choice(["login", "login", "login-ipr", "combined"]))]
+    if rng.random() < 0.4:
+        services.append(("ipr.srv", rng.choice(["login", "dronecheck", "login-ipr"])))
+    cfg = Cfg(timeout=rng.choice([0, 30]), services=services,
+              rules=[("a", [("class", "cls-a")])] if mods == "class" else [])
+    scripts = {}
+    for cid in rng.sample([1, 2, 5, 7], rng.choice([1, 1, 2])):
+        data = [("line", "N host.example"), ("line", "u ident"), ("line", "n nick"), ("line", "U user :real name")]
+        rng.shuffle(data)
+        pw = ("line", "P :" + rng.choice(["+x acct pass", "+! acct pass", "+x! acct pass", "-! acct pass"]))
+        k = rng.randint(0, len(data))
+        ev = [("C", rng.choice(["1.2.3.4", "0::1"]), "1234")] + data[:k] + [pw]
+        rest = data[k:]
+        flow = []
+        for _ in range(rng.choice([1, 1, 2])):
+            flow.append(("reply", "X", "login.srv", rng.choice(["MORE challenge", "MORE c2", "AGAIN retry"]), "cur"))
+            flow.append(("line", "P :" + rng.choice(["response", "+x acct pass2", "-! acct pass"])))
+        flow.append(("reply", "X", "login.srv", rng.choice(["OK acct", "OK", "NO bad", "OK acct:1"]), "cur"))
+        # the remaining data items arrive somewhere inside the flow
+        for item in rest:
+            flow.insert(rng.randint(0, len(flow)), item)
+        ev += flow
+        if cfg.timeout and rng.random() < 0.4:
+            ev.insert(rng.randint(1, len(ev)), ("timeout",))
+        for svc, _t in services[1:]:
+            ev.insert(rng.randint(2, len(ev)), ("reply", "X", svc, rng.choice(["OK", "OK acct2", "AGAIN x"]), "cur"))
+        if rng.random() < 0.3:
+            ev.append(("line", "H"))
+        scripts[cid] = ev
+    ops = header(mods, cfg) + render_schedule(rng, scripts)
+    if cfg.timeout and rng.random() < 0.5:
+        ops.insert(rng.randint(header_len_ops(ops), len(ops)), "elapse")
+        ops.append("elapse")
+    ops.append("eof")
+    return Case(name, ops, tags={"mods": mods})
 
 
 def gen_cases(prop, tier, seed):
@@ -574,9 +724,11 @@ def gen_cases(prop, tier, seed):
         if i % 5 == 4 and prop not in ("C06", "C11"):
             cases.append(malformed_case(rng, "mal/%d" % i))
         elif prop == "C11":
-            cases.append(scenario(rng, "scn/%d" % i, mods="class"))
+            cases.append(class_scenario(rng, "cls/%d" % i) if i % 4 else scenario(rng, "scn/%d" % i, mods="class"))
         elif prop == "C06":
-            cases.append(scenario(rng, "scn/%d" % i, mods=rng.choice(["xquery", "class"])))
+            cases.append(scenario(rng, "scn/%d" % i, mods=rng.choice(["xquery", "class"])) if i % 6 else challenge_scenario(rng, "chl/%d" % i))
+        elif prop in ("C02", "C03", "C05", "C01", "C10") and i % 5 == 2:
+            cases.append(challenge_scenario(rng, "chl/%d" % i))
         else:
             cases.append(scenario(rng, "scn/%d" % i))
     return cases
